@@ -156,9 +156,23 @@ func currentValue(m *Msg, f string) string {
 }
 
 // forgeable mirrors Forgeable / the guard of Forge in Handshake.tla.
-func (r *runner) forgeable(m *Msg, f, v string) bool {
+func (r *runner) forgeable(m *Msg, f, v string, resign bool) bool {
 	if r.done[m.K+"."+f] || currentValue(m, f) == v {
 		return false
+	}
+	if (f == "e_mship" || f == "e_via") && !resign && m.Ev.Type != "member" {
+		return false // content keys are covered by the signatures of membership events only
+	}
+	if m.K == "mjreq" && (f == "origin" || f == "usrv") {
+		o, u := m.Origin, m.Usrv
+		if f == "origin" {
+			o = v
+		} else {
+			u = v
+		}
+		if o == u && u != "J" {
+			return false // another server's own handshake: see ForgeGuard
+		}
 	}
 	switch f {
 	case "t_type", "t_mship", "t_ssrv", "t_room", "t_via", "ver", "create", "st", "ban", "jret":
@@ -193,20 +207,22 @@ func (r *runner) pick(m *Msg) *Forge {
 	if r.rng == nil || len(r.plan.Forges) >= r.maxF || r.rng.Intn(100) >= 35 {
 		return nil
 	}
-	var cands [][2]string
+	var cands []Forge
 	for _, fv := range forgeTable[m.K] {
-		if r.forgeable(m, fv[0], fv[1]) {
-			cands = append(cands, fv)
+		rs := []bool{false}
+		if resignable(fv[0]) {
+			rs = []bool{false, true}
+		}
+		for _, resign := range rs {
+			if r.forgeable(m, fv[0], fv[1], resign) {
+				cands = append(cands, Forge{At: m.K, F: fv[0], V: fv[1], Resign: resign})
+			}
 		}
 	}
 	if len(cands) == 0 {
 		return nil
 	}
-	fv := cands[r.rng.Intn(len(cands))]
-	f := &Forge{At: m.K, F: fv[0], V: fv[1]}
-	if resignable(f.F) {
-		f.Resign = r.rng.Intn(2) == 0
-	}
+	f := &cands[r.rng.Intn(len(cands))]
 	r.plan.Forges = append(r.plan.Forges, *f)
 	return f
 }
@@ -724,7 +740,7 @@ func (r *runner) runInvite() {
 	w := r.w
 	// J's user invites a user of R: a real invite event signed by J
 	call := inviteCall{room: w.room, event: w.concreteEvent(AbsEv{Type: "member", Mship: "invite", Ssrv: "J", Skey: "invitee", Room: "main",
-		Via: "none", Sig: "valid", Auth: "good"}, time.Now())}
+		Via: "none", Sig: "valid", Auth: "base"}, time.Now())}
 	project := func() *Msg {
 		e := w.projectEvent(call.event, "invite")
 		return &Msg{K: "invreq", Room: w.roomClass(call.room), Ev: &e}
